@@ -30,6 +30,8 @@ unchanged.  This module folds such edits back, on the syntax tree, so that the r
   * split-exit       `return A if c else B` -> `if c: return A` + `return B`; `if a or b: EXIT` -> `if a: EXIT` + `if b: EXIT`.
   * unrolled-loop    a `for` over a short literal of pure elements is its body once per element.
   * idiom            `next(iter(x))` -> `list(x)[0]`; `itemgetter(k)` / `attrgetter('a')` -> the lambda; `dict.fromkeys`.
+                     `chain.from_iterable(xs)` -> `sum(xs, [])`; `chain(a, *xs)` -> `a + sum(xs, [])`.
+  * accumulation     `t = t + v` -> `t += v`; `d[k] = d.get(k, 0) + v` -> `d[k] += v`.
   * folded-closure   a function defined and only called inside a method is folded back at its calls.
   * renamed-symbol   a method / module function of the reference decomposition that is missing while an unknown one in
                      the same class / module has the same body digest gets its name back (parameters likewise).
@@ -1620,6 +1622,7 @@ class Canonicaliser:
         self.plain_assignments(u, fn)
         self.closures_inline(u, fn)
         self.idioms(u, fn)
+        self.accumulations(u, fn)
         self.unroll_literal_loops(u, fn)
         self.sink_into_branches(u, fn)
         self.bulk_removals(u, fn)
@@ -1633,6 +1636,42 @@ class Canonicaliser:
         self.discards(u, fn)
         self.merge_ifs(u, fn)
         self.drop_pass(fn)
+
+    def accumulations(self, unit, fn):
+        """`t = t + v` -> `t += v` (also `-`, `|`, `&`, `*`) and `d[k] = d.get(k, 0) + v` -> `d[k] += v`: one spelling
+        of an accumulation for the rules (t a name, an attribute chain or a subscript of pure parts)."""
+        me = self
+        OPS = (ast.Add, ast.Sub, ast.BitOr, ast.BitAnd, ast.Mult)
+
+        class T(ast.NodeTransformer):
+            def visit_FunctionDef(self, n):
+                if n is fn:
+                    self.generic_visit(n)
+                return n
+
+            def visit_Assign(self, n):
+                if len(n.targets) != 1 or not isinstance(n.value, ast.BinOp) or not isinstance(n.value.op, OPS):
+                    return n
+                t = n.targets[0]
+                if not isinstance(t, (ast.Name, ast.Attribute, ast.Subscript)) or not pure(t):
+                    return n
+                tt = ast.unparse(t)
+                l, r = n.value.left, n.value.right
+                other = None
+                if ast.unparse(l) == tt:
+                    other = r
+                elif isinstance(n.value.op, ast.Add) and isinstance(t, ast.Subscript) and isinstance(l, ast.Call) and \
+                        isinstance(l.func, ast.Attribute) and l.func.attr == 'get' and len(l.args) == 2 and \
+                        isinstance(l.args[1], ast.Constant) and l.args[1].value == 0 and not l.keywords and \
+                        ast.unparse(l.func.value) == ast.unparse(t.value) and ast.unparse(l.args[0]) == ast.unparse(t.slice):
+                    other = r
+                if other is None:
+                    return n
+                tgt = copy.deepcopy(t)
+                new = ast.AugAssign(target=tgt, op=n.value.op, value=other)
+                me.log.append(('accumulation', unit.loc(n), '%s: %s' % (unit.qual, tt)))
+                return ast.fix_missing_locations(ast.copy_location(new, n))
+        T().visit(fn)
 
     def plain_assignments(self, unit, fn):
         """`x: T = v` (a local, T not needed to type x: a primitive / container annotation, or v is a call whose result
@@ -1663,13 +1702,19 @@ class Canonicaliser:
 
     @staticmethod
     def drop_pass(fn):
-        """`pass` next to other statements (left by the rewritings) is removed."""
+        """`pass` next to other statements (left by the rewritings) is removed, and so is what follows an unconditional
+        return / raise / continue / break in the same block (unreachable)."""
         def do_list(stmts):
             for st in stmts:
                 if not isinstance(st, (ast.FunctionDef, ast.AsyncFunctionDef, ast.ClassDef)):
                     for owner, f in block_lists(st):
                         setattr(owner, f, do_list(getattr(owner, f)))
             kept = [st for st in stmts if not isinstance(st, ast.Pass)]
+            for i, st in enumerate(kept):
+                if isinstance(st, (ast.Return, ast.Raise, ast.Continue, ast.Break)) and i + 1 < len(kept) and \
+                        getattr(st, '_synthetic_exit', True):
+                    kept = kept[:i + 1]        # what follows an unconditional exit is dead (left by the table dispatch)
+                    break
             return kept or stmts[:1]
         fn.body = do_list(fn.body)
 
@@ -1735,7 +1780,8 @@ class Canonicaliser:
     # ---------------------------------------------------------------- equivalent idioms
     def idioms(self, unit, fn):
         """`next(iter(x))` -> `list(x)[0]`; `itemgetter(k)` -> `lambda x: x[k]`; `attrgetter('a')` -> `lambda x: x.a`;
-        `dict.fromkeys(xs, c)` -> `{x: c for x in xs}` (c a constant)."""
+        `dict.fromkeys(xs, c)` -> `{x: c for x in xs}` (c a constant); `chain.from_iterable(xs)` -> `sum(xs, [])`,
+        `chain(a, *xs)` -> `a + sum(xs, [])` (the same elements in the same order, for the single iteration made of them)."""
         me = self
 
         class T(ast.NodeTransformer):
@@ -1776,6 +1822,25 @@ class Canonicaliser:
                         all(pure(e) for e in n.args[0].elts):
                     new = ast.BoolOp(op=ast.Or() if nm == 'any' else ast.And(), values=list(n.args[0].elts))
                     me.log.append(('idiom', unit.loc(n), '%s: %s over a literal' % (unit.qual, nm)))
+                    return ast.fix_missing_locations(ast.copy_location(new, n))
+                ft = ast.unparse(f)
+                if ft in ('chain.from_iterable', 'itertools.chain.from_iterable') and len(n.args) == 1 and not n.keywords:
+                    new = ast.Call(func=ast.Name(id='sum', ctx=ast.Load()), args=[n.args[0], ast.List(elts=[], ctx=ast.Load())],
+                                   keywords=[])
+                    me.log.append(('idiom', unit.loc(n), '%s: chain.from_iterable' % unit.qual))
+                    return ast.fix_missing_locations(ast.copy_location(new, n))
+                if ft in ('chain', 'itertools.chain') and n.args and not n.keywords:
+                    terms = []
+                    for a in n.args:
+                        if isinstance(a, ast.Starred):
+                            terms.append(ast.Call(func=ast.Name(id='sum', ctx=ast.Load()),
+                                                  args=[a.value, ast.List(elts=[], ctx=ast.Load())], keywords=[]))
+                        else:
+                            terms.append(a)
+                    new = terms[0]
+                    for t_ in terms[1:]:
+                        new = ast.BinOp(left=new, op=ast.Add(), right=t_)
+                    me.log.append(('idiom', unit.loc(n), '%s: chain' % unit.qual))
                     return ast.fix_missing_locations(ast.copy_location(new, n))
                 if nm == 'fromkeys' and isinstance(f, ast.Attribute) and isinstance(f.value, ast.Name) and \
                         f.value.id == 'dict' and len(n.args) == 2 and isinstance(n.args[1], ast.Constant) and pure(n.args[0]):
@@ -2023,7 +2088,8 @@ class Canonicaliser:
 
     # ---------------------------------------------------------------- bulk removal
     def bulk_removals(self, unit, fn):
-        """`s.difference_update({x for x in s if c})` (pure s) -> `for x in list(s): if c: s.remove(x)`."""
+        """`s.difference_update({x for x in s if c})` (pure s) -> `for x in list(s): if c: s.remove(x)`;
+        `s.difference_update(e for x in xs if c)` (another iterable) -> `for x in xs: if c: if e in s: s.remove(e)`."""
         me = self
 
         def do_list(stmts):
@@ -2055,6 +2121,25 @@ class Canonicaliser:
                         for x in ast.walk(loop):
                             if hasattr(x, 'lineno'):
                                 ast.copy_location(x, st)
+                        me.log.append(('bulk-removal', unit.loc(st), unit.qual))
+                        continue
+                    if ast.unparse(g.iter) != ast.unparse(c.func.value) and pure(comp.elt) and \
+                            ast.unparse(c.func.value) not in ast.unparse(g.iter):
+                        # elements computed from another iterable: each one is discarded
+                        s_ = c.func.value
+                        rm = ast.Expr(value=ast.Call(func=ast.Attribute(value=copy.deepcopy(s_), attr='remove', ctx=ast.Load()),
+                                                     args=[copy.deepcopy(comp.elt)], keywords=[]))
+                        body = [ast.If(test=ast.Compare(left=copy.deepcopy(comp.elt), ops=[ast.In()],
+                                                        comparators=[copy.deepcopy(s_)]), body=[rm], orelse=[])]
+                        if g.ifs:
+                            test = g.ifs[0] if len(g.ifs) == 1 else ast.BoolOp(op=ast.And(), values=list(g.ifs))
+                            body = [ast.If(test=test, body=body, orelse=[])]
+                        loop = ast.For(target=g.target, iter=g.iter, body=body, orelse=[])
+                        ast.copy_location(loop, st)
+                        for x in ast.walk(loop):
+                            if not hasattr(x, 'lineno') or True:
+                                ast.copy_location(x, st) if hasattr(x, '_attributes') and 'lineno' in x._attributes else None
+                        out.append(ast.fix_missing_locations(loop))
                         me.log.append(('bulk-removal', unit.loc(st), unit.qual))
                         continue
                 out.append(st)
